@@ -750,6 +750,12 @@ func (ev *Eval) bitcast(t *wgen.Type, a Val) Val {
 			if badF32(f) {
 				r.Ind = true
 			}
+			// the sign of a zero produced by round / floor / ceil / trunc / fract and arithmetic on such values is not
+			// pinned down in every target language (GLSL's round(-0.25) may be +0): a negative zero is not observable
+			// through its bits
+			if uint32(s.B) == 0x80000000 {
+				r.Ind = true
+			}
 		}
 		out.S[i] = r
 	}
